@@ -7,7 +7,7 @@ exprgen.Table()
 gen_prec.write(); gen_prec.write_sizes()
 gen_lr.write()
 import gen_lex
-gen_lex.startcond_table(); gen_lex.comment_rules(); gen_lex.lex_rules()
+gen_lex.startcond_table(); gen_lex.comment_rules(); gen_lex.lex_rules(); gen_lex.newline_actions()
 gen_kinds.write_header(); gen_trace.write()
 vlib.coq_makefile()
 rc, o, e = vlib.sh(['make', '-k', '-j16'], cwd=vlib.COQ, timeout=6000)
